@@ -183,6 +183,36 @@ Section Mono.
     - apply rsum_mono. apply Forall2_map_seq. intros l Hl. apply He. lia.
   Qed.
 
+  (* terms <= 1 give a pdf value <= 1 when 1 and the counts 0..k are representable *)
+  Lemma fold_rsum_le_count (K : Z) l a (j : Z) :
+    (forall z, (0 <= z <= K)%Z -> rnd (IZR z) = IZR z) ->
+    (0 <= j)%Z -> (j + Z.of_nat (length l) <= K)%Z -> a <= IZR j -> (forall v, In v l -> v <= 1) ->
+    fold_left (fun a b => rnd (a + b)) l a <= IZR (j + Z.of_nat (length l)).
+  Proof.
+    intro HZ. revert a j. induction l as [|x l IH]; intros a j Hj HK Ha Hl.
+    - cbn [fold_left length]. rewrite Z.add_0_r. exact Ha.
+    - cbn [fold_left]. cbn [length] in *. rewrite Nat2Z.inj_succ in *.
+      replace (j + Z.succ (Z.of_nat (length l)))%Z with ((j + 1) + Z.of_nat (length l))%Z by lia.
+      apply IH; [lia|lia| |intros v Hv; apply Hl; now right].
+      rewrite <- (HZ (j + 1)%Z) by lia. apply rnd_le. rewrite plus_IZR.
+      pose proof (Hl x (or_introl eq_refl)). lra.
+  Qed.
+
+  Lemma pdfv_le_1 k e :
+    rnd 1 = 1 -> (forall z, (0 <= z <= Z.of_nat k)%Z -> rnd (IZR z) = IZR z) ->
+    (forall l, (l < k)%nat -> e l <= 1) -> pdfv rnd k e <= 1.
+  Proof.
+    intros H1 HZ He. unfold pdfv. rewrite <- H1. apply rnd_le.
+    assert (HS : rsum rnd (map e (seq 0 k)) <= IZR (Z.of_nat k)).
+    { pose proof (fold_rsum_le_count (Z.of_nat k) (map e (seq 0 k)) 0 0%Z HZ) as H.
+      rewrite map_length, seq_length, Z.add_0_l in H. apply H; [lia|lia|lra|].
+      intros v Hv. apply in_map_iff in Hv. destruct Hv as (l & <- & Hl).
+      apply in_seq in Hl. apply He. lia. }
+    pose proof (IZR_S_pos k) as Hp. rewrite Nat2Z.inj_succ, succ_IZR in *.
+    apply Rmult_le_reg_r with (IZR (Z.of_nat k) + 1); [exact Hp|].
+    unfold Rdiv. rewrite Rmult_assoc, Rinv_l by lra. lra.
+  Qed.
+
   Lemma qmean_nonneg k e : (1 <= k)%nat -> (forall l, (l < k)%nat -> 0 <= e l) -> 0 <= qmean rnd k e.
   Proof.
     intros Hk He. unfold qmean. apply rnd_nonneg.
